@@ -305,7 +305,10 @@ func c04units(tier string) []mc.Unit {
 					mixed := s[:i+1] + toU(s[i+1:])
 					h2, err := seqhash.Hash(mixed, "RNA", true, true)
 					cnt++
-					if err != nil || h2 != h {
+					if err != nil {
+						continue // a spelling the function does not accept is outside the statement
+					}
+					if h2 != h {
 						r.Failf("rna-spelling", q(mixed)+" vs "+q(toU(s)), nil, h, fmt.Sprint(h2, err))
 					}
 				}
